@@ -46,6 +46,14 @@ CLAIMED = {
          "TLC checks EffectOnlyIfAuthorised, RefusedChangesNothing, NoListDisclosure, NeverBothCredentials and InvalidTokenNeverWorks on the WebApi model and prints every edge (endpoint x session credential kind x old-password kind x target x body shape x reachable state); each edge is one HTTP request through newWebHandler and the real dispatcher with real tokens (logins, a demoted administrator's token, expired / future / tampered / other-instance / garbage tokens); status class, disclosed list, issued token identity and a byte-level snapshot (refusals) or projection (effects) of the store are compared with the model.",
          "States within MaxDepth effective changes from the initial store (1 quick, 2 thorough). HTTP framing outside the JSON body is not varied.",
          "4/C06"),
+ "C13": ("TLC over SaslCodec: every delivery schedule of every stream of a bounded set against the declarative Expected(stream); every stream replayed on the real codec under dense read schedules via two length homomorphisms",
+         "TLC checks ResultIsFunctionOfStream, ReencodeEqualsConsumed, OverLimitRefused for every fragmentation (any chunking, zero-length reads, EOF with or after the last chunk) of every stream in the bounded set (all 4-field messages over a scaled alphabet incl. over-limit and cut fields, every prefix, trailing bytes; all response strings up to 7 bytes) and prints Expected(stream); each stream is mapped to real bytes (lengths 0,1,255,256,257,...,65535; random contents) and Request/Response Decode, Unmarshal, Marshal, Encode are compared with it under single, 1-byte, all 2-way, random, zero-length and EOF-with-data read schedules; encoder limits/round trips at the real boundary lengths.",
+         "bufio.Scanner is trusted. Byte fidelity inside fields rests on the concretised replays. PAM encoder equality is checked in C20.",
+         "4/C13"),
+ "C05": ("TLC over SaslConn (2 connections, all callback outcomes and client endings; wrong no-clip variant refuted) + every connection edge executed as raw unix-socket connections against a real sasl.Server",
+         "TLC checks AtMostOneCallback, CallbackOnlyIfDecoded, PositiveOnlyIfApproved, ExactlyOneReplyThenClose, NoCrossTalk, ReplyDecodableByGoClient/Pam and the liveness property Answered; each (stream class, client ending, callback outcome incl. message lengths 0..65600 and errors) edge is executed several times against a real server with streams from the SaslCodec model, random fragmentation, 32 connections in parallel, a recording callback and per-connection tokens; replies are decoded with the bundled Go client and the PAM read rule.",
+         "A silent client (neither finishes nor closes) is only required to get no positive answer. Socket reads cannot be forced to given boundaries; fragmentation is by write size and pacing.",
+         "4/C05"),
 }
 
 checks = []
